@@ -201,6 +201,7 @@ class QuicNetworkPath:
         self.addr: NetworkAddress = addr
         self.bytes_received: int = 0
         self.bytes_sent: int = 0
+        self.is_handshake_path: bool = False
         self.is_validated: bool = is_validated
         self.local_challenge_sent: bool = False
         self.remote_challenges: Deque[bytes] = deque()
@@ -925,6 +926,7 @@ class QuicConnection:
                         )
                     return
                 crypto_frame_required = True
+                network_path.is_handshake_path = True
                 self._network_paths = [network_path]
                 self._version = header.version
                 self._initialize(header.destination_cid)
@@ -1113,7 +1115,13 @@ class QuicConnection:
                 self.change_connection_id()
 
             # update network path
-            if not network_path.is_validated and epoch == tls.Epoch.HANDSHAKE:
+            if (
+                not network_path.is_validated
+                and epoch == tls.Epoch.HANDSHAKE
+                and network_path.is_handshake_path
+            ):
+                # a Handshake packet proves that the peer received our Initial
+                # packet, which we sent to the address the handshake started from
                 self._logger.debug(
                     "Network path %s validated by handshake", network_path.addr
                 )
